@@ -20,6 +20,14 @@ class Problem:
         return {"name": self.name, "n": self.n, "convex": self.convex, **self.meta}
 
 
+def _sc(v):
+    """float for real input; complex values pass through (complex-step differentiation)."""
+    return v if np.iscomplexobj(v) else float(v)
+
+
+CS_OK = ["qp", "qp4", "badscale", "sphere", "quartic", "qpcos", "osc"]   # analytic, accept complex input
+
+
 def _spd(rng, n, cond):
     q, _ = np.linalg.qr(rng.standard_normal((n, n)))
     ev = np.exp(rng.uniform(0, np.log(cond), n)) if n > 1 else np.array([1.0])
@@ -82,7 +90,7 @@ def gen(rng, family, n, box_kinds=None, start=None, cond=None):
     if family == "qp":
         def fun(x, A=A, c=c):
             d = x - c
-            return 0.5 * float(d @ (A @ d))
+            return _sc(0.5 * (d @ (A @ d)))
 
         def grad(x, A=A, c=c):
             return A @ (x - c)
@@ -91,7 +99,7 @@ def gen(rng, family, n, box_kinds=None, start=None, cond=None):
 
         def fun(x, A=A, c=c, w=w):
             d = x - c
-            return 0.5 * float(d @ (A @ d)) + float(np.sum(w * d ** 4))
+            return _sc(0.5 * (d @ (A @ d)) + np.sum(w * d ** 4))
 
         def grad(x, A=A, c=c, w=w):
             d = x - c
@@ -113,7 +121,7 @@ def gen(rng, family, n, box_kinds=None, start=None, cond=None):
 
         def fun(x, A=A, c=c, amp=amp, fr=fr):
             d = x - c
-            return 0.5 * float(d @ (A @ d)) + amp * float(np.sum(np.cos(fr * x)))
+            return _sc(0.5 * (d @ (A @ d)) + amp * np.sum(np.cos(fr * x)))
 
         def grad(x, A=A, c=c, amp=amp, fr=fr):
             return A @ (x - c) - amp * fr * np.sin(fr * x)
@@ -123,7 +131,7 @@ def gen(rng, family, n, box_kinds=None, start=None, cond=None):
         amp = rng.uniform(0.5, 3.0)
 
         def fun(x, fr=fr, amp=amp, c=c):
-            return float(np.sum(0.05 * (x - c) ** 2 + amp * np.sin(fr * x)))
+            return _sc(np.sum(0.05 * (x - c) ** 2 + amp * np.sin(fr * x)))
 
         def grad(x, fr=fr, amp=amp, c=c):
             return 0.1 * (x - c) + amp * fr * np.cos(fr * x)
@@ -132,7 +140,7 @@ def gen(rng, family, n, box_kinds=None, start=None, cond=None):
         sc = 10.0 ** rng.uniform(-3, 3, n)
 
         def fun(x, sc=sc, c=c):
-            return 0.5 * float(np.sum(sc * (x - c) ** 2))
+            return _sc(0.5 * np.sum(sc * (x - c) ** 2))
 
         def grad(x, sc=sc, c=c):
             return sc * (x - c)
